@@ -756,6 +756,9 @@ func replayCase(r *vk.Run, reg *registry, roots []root) {
 	if rp.Phase == "chunked-stream" {
 		u = unit{Kind: "replay-chunk", TypeName: rp.Type, Entry: rp.Entry, InputHex: rp.Input, Reader: rp.Reader}
 	}
+	if rp.Phase == "registry-audit" {
+		u = unit{Kind: "audit"}
+	}
 	if rp.Phase == "map-order" {
 		u = unit{Kind: "maporder"}
 	}
